@@ -161,3 +161,15 @@ def step (s : S) : List String → S × String
   | _ => (s, "bad-op")
 
 end Driver.Index
+
+namespace Driver.Index
+
+/-- Compose the core index step with read-only extension handlers (queries / oracle predicates
+of one property group; `none` = not one of ours).  Each property group has its own driver exe
+`drv_ix_<group>` whose main is `Driver.run (withExt <group>.handle) {}`. -/
+def withExt (ext : S → List String → Option String) (s : S) (ts : List String) : S × String :=
+  match ext s ts with
+  | some out => (s, out)
+  | none => step s ts
+
+end Driver.Index
